@@ -69,6 +69,8 @@ AppWrites(P, idxs) == UNION { { <<Key(P), i, w>> : w \in 1..WritesOf(P.data[i]) 
 \* acknowledgement values: sequences of app acks; v1 <<"ok">> | <<"err">>,
 \* v2 <<"ok",...>> (one per payload) | <<"SENTINEL">>
 AckOfV1(d) == IF OutcomeOf(d) = "ok" THEN <<"ok">> ELSE <<"err">>
+\* v2 applications answer differently per payload behaviour, so that the ORDER of an ack list is observable
+AckOfPayload(d) == IF d \in {"ok1", "ok2"} THEN d ELSE "ok"
 
 (***************************************************************************)
 (* State                                                                   *)
@@ -255,7 +257,7 @@ DoRecvV2(S, c, a, t) ==
                  Ok(WithCur(S, c, t, [c1 EXCEPT !.ack = (k :> <<"SENTINEL">>) @@ @], lg))
             ELSE IF fa # 0 THEN
                  Ok(AddApp(WithCur(S, c, t, [c1 EXCEPT !.async = @ \cup {k}], lg), c, AppWrites(P, 1..n)))
-            ELSE Ok(AddApp(WithCur(S, c, t, [c1 EXCEPT !.ack = (k :> [i \in 1..n |-> "ok"]) @@ @], lg), c, AppWrites(P, 1..n)))
+            ELSE Ok(AddApp(WithCur(S, c, t, [c1 EXCEPT !.ack = (k :> [i \in 1..n |-> AckOfPayload(P.data[i])]) @@ @], lg), c, AppWrites(P, 1..n)))
 
 (***************************************************************************)
 (* Asynchronous acknowledgement written by the application                 *)
